@@ -61,6 +61,10 @@ INSERT INTO target_path VALUES (?)
 
 # The directories that `stepup build` was asked to produce everything under,
 # each with the upper bound of its prefix range (see path.dir_range_upper).
+# The project root ("./") contains every label, which a prefix range cannot express
+# (labels are root-relative and carry no "./" prefix): it is stored as the range from ""
+# to an empty BLOB. SQLite sorts every BLOB after every TEXT value,
+# so this is a reliable maximum (which no string is) and the queries keep their range scan.
 # Populated once in Scheduler.initialize(), mirroring target_path.
 INIT_TARGET_DIR = """
 CREATE TEMPORARY TABLE IF NOT EXISTS target_dir
@@ -570,7 +574,7 @@ class Scheduler:
             self.db.executemany(
                 INSERT_TARGET_DIR,
                 (
-                    (str(path), dir_range_upper(str(path)))
+                    ("", b"") if str(path) == "./" else (str(path), dir_range_upper(str(path)))
                     for path in sorted(self.workflow.target_dirs)
                 ),
             )
